@@ -22,7 +22,7 @@
 (* record [kind, op, s, n, b, set]: kind in str|num|bool|set|ver|junk,     *)
 (* op in eq|ne|ge|le|contains.  Pure definitions only.                     *)
 (***************************************************************************)
-EXTENDS Naturals, Integers, Sequences, FiniteSets, TLC
+EXTENDS Naturals, Integers, Sequences, FiniteSets, TLC, IOUtils
 
 \* ---------------------------------------------------------------- characters
 Lowers == {"a","b","c","d","e","f","g","h","i","j","k","l","m","n","o","p","q","r","s","t","u","v","w","x","y","z"}
@@ -152,8 +152,10 @@ CatOrder(sel, seen) == IF sel = <<>> THEN <<>>
 \* dict / atvp have exactly one member.  Lookup returns [known, sp, cache].
 \* behave._types.Unknown is a class, hence callable: ActiveTagValueProvider.use_value(Unknown) CALLS it and returns
 \* an instance, so a missing category comes back as a value that is not `Unknown` (a known category whose value
-\* matches nothing).  CallsUnknownDefault = TRUE models the code as it is; FALSE is the repaired behaviour.
-CallsUnknownDefault == TRUE
+\* matches nothing).  CallsUnknownDefault = TRUE models the code as it is; FALSE is the repaired behaviour.  The driver
+\* selects the variant by a probe of the real provider (environment variable C19_UNKNOWN_CALLED = "0" -> FALSE), so
+\* that the informational comparison model vs code stays exact on both trees; verdicts never depend on it.
+CallsUnknownDefault == ~("C19_UNKNOWN_CALLED" \in DOMAIN IOEnv /\ IOEnv.C19_UNKNOWN_CALLED = "0")
 Missing(cache) == IF CallsUnknownDefault THEN [known |-> TRUE, sp |-> Junk, cache |-> cache]
                                          ELSE [known |-> FALSE, sp |-> Junk, cache |-> cache]
 MemberGet(m, c) ==      \* member.get(category, Unknown)
